@@ -772,11 +772,14 @@ package keeper
 // registered state callback (A-CALLBACK: a callback is registered for every module name stored in a context - checked
 // when the context is created - and does not touch this module's store or escrow accounts)
 //@ func Keeper.OnRequestContextPaused(ctx, requestContext, requestContextID, cause)
-//@   property C13, C08, C07
+//@   property C13, C08, C07, C17
 //@   modifies contexts, *requestContext
 // the caller's context is the one that is paused (the end blocker re-reads its state to decide whether to issue requests)
 //@   ensures paused: requestContext.State == types.PAUSED && requestContext.BatchState == types.BATCHCOMPLETED
 //@   ensures stored: contexts == set(old(contexts), requestContextID, requestContext)
+// the owner (the oracle's HandlerStateChanged) looks the context up in the store when it is notified: it has to find
+// the paused record there, or the feed stays in the running queue of a paused context (C17, automatic pause)
+//@   ensures @C17 owner_reads_pause: len(requestContext.ModuleName) > 0 ==> atcallback(has(contexts, requestContextID) && CTX(requestContextID).State == types.PAUSED)
 //@   nopanic
 //@ end
 
